@@ -273,23 +273,23 @@ impl<'l, Data> LoopHandle<'l, Data> {
 
     /// Removes this source from the event loop.
     pub fn remove(&self, token: RegistrationToken) {
-        if let Ok(&mut SourceEntry {
-            token: entry_token,
-            ref mut source,
-        }) = self.inner.sources.borrow_mut().get_mut(token.inner)
-        {
-            if let Some(source) = source.take() {
-                trace!(source = entry_token.get_id(), "Removing source");
-                if let Err(e) = source.unregister(
-                    &mut self.inner.poll.borrow_mut(),
-                    &mut self
-                        .inner
-                        .sources_with_additional_lifecycle_events
-                        .borrow_mut(),
-                    token,
-                ) {
-                    warn!("Failed to unregister source from the polling system: {e:?}");
-                }
+        // The source list must not stay borrowed while the source is dropped: the destructor of
+        // the source or of something its callback owns may use the loop again.
+        let source = match self.inner.sources.borrow_mut().get_mut(token.inner) {
+            Ok(entry) => entry.source.take(),
+            Err(_) => None,
+        };
+        if let Some(source) = source {
+            trace!(source = token.inner.get_id(), "Removing source");
+            if let Err(e) = source.unregister(
+                &mut self.inner.poll.borrow_mut(),
+                &mut self
+                    .inner
+                    .sources_with_additional_lifecycle_events
+                    .borrow_mut(),
+                token,
+            ) {
+                warn!("Failed to unregister source from the polling system: {e:?}");
             }
         }
     }
